@@ -290,7 +290,7 @@ func genScript(r *rand.Rand, i int) *script {
 	sc.Rule = ru.name
 	sc.Close = r.Intn(3) > 0
 	sc.Burst = round > 0 && r.Intn(4) == 0
-	sc.ReadAll = raceBuild && r.Intn(3) == 0
+	sc.ReadAll = r.Intn(3) == 0
 	sc.Prefixed = round > 0 && r.Intn(4) == 0
 
 	var pieces []piece
